@@ -103,6 +103,14 @@ mut("c10_rhs_reused_between_solves", "C10", [("forsys/fmatrix.py",
     "        b = np.zeros((self.matrix.shape[0], 1))\n        b_matrix = kwargs.get(\"b_matrix\", None)\n",
     "        b = np.zeros((self.matrix.shape[0], 1)) if self.velocity_matrix is None else self.velocity_matrix_dimensional.T.copy()\n        b_matrix = kwargs.get(\"b_matrix\", None)\n")],
     "a static solve after a dynamic one re-uses the velocity right-hand side of the previous call")
+mut("c10_solve_without_seterr", "C10", [("forsys/fmatrix.py",
+    "        np.seterr(all='raise')\n        tote = len(self.big_edges_to_use)\n",
+    "        tote = len(self.big_edges_to_use)\n"),
+    ("forsys/general_matrix.py",
+    "        np.seterr(all='raise')\n        assert self.lhs_matrix is not None, \"LHS matrix not set\"\n",
+    "        assert self.lhs_matrix is not None, \"LHS matrix not set\"\n")],
+    "solves no longer switch the calling thread to raise mode: on a caller thread that is not the importing thread floating point errors become warnings; only matters when a solve actually hits one",
+    expect="caught")
 
 
 def crlf(s):
